@@ -220,6 +220,12 @@ class SSHSOCKSForwarder(SSHLocalForwarder):
             self._inpbuf += data
 
             while self._recv_handler: # type: ignore[truthy-function]
+                if not self._transport:
+                    # Closed by a handler: stop parsing, drop what is left
+                    self._recv_handler = None
+                    self._inpbuf = b''
+                    return
+
                 if self._bytes_needed < 0:
                     idx = self._inpbuf.find(b'\0')
                     if idx >= 0:
